@@ -261,6 +261,21 @@ impl<'a> MacroPass<'a> {
         let name = path_str(&mac.path);
         let last = mac.path.segments.last().map(|s| s.ident.to_string()).unwrap_or_default();
         match last.as_str() {
+            "vec" => {
+                // R6b: `vec![a, b, ..]` (list form) -> its definitional expansion: a fresh Vec with the elements pushed in order
+                let parser = syn::punctuated::Punctuated::<syn::Expr, syn::Token![,]>::parse_terminated;
+                match syn::parse::Parser::parse2(parser, mac.tokens.clone()) {
+                    Ok(elems) => {
+                        bump(self.counts, "R6b.vec_macro");
+                        let elems: Vec<syn::Expr> = elems.into_iter().collect();
+                        Some(syn::parse_quote!({ let mut __vec = Vec::new(); #( __vec.push(#elems); )* __vec }))
+                    }
+                    Err(_) => {
+                        self.err = Some("unsupported construct: vec![elem; n]".into());
+                        None
+                    }
+                }
+            }
             "quote" => {
                 match self.gen.expand(mac.tokens.clone()) {
                     Ok(ts) => {
